@@ -184,13 +184,35 @@ def run(ctx):
     ctx.floor('C32-LIVE', n_entry, 18, 'public object-bound operations examined')
     # ---- a change is never *silently accepted*: the operations that change an object (and the notification hook of the tracked
     # Json/array containers, which runs after the in-place change was made) cannot return normally without having passed the liveness test
-    n_ref = 0
+    n_ref = n_del = 0
     for f in funcs:
         if f.parent is not None or f.cls is None or f.cls not in obj_cls: continue
         if f.name not in MUTATING | {'__set__', '__delete__', '_attr_changed_'}: continue
         g, IN = flow(f)
         tests = [n for n in g.nodes if n.kind == 'test' and '.is_alive' in norm(n.ast)]
-        if not tests: continue            # delegates (checked at the callee) 
+        if not tests:
+            # the operation delegates: every normal path goes through a call on the same object whose every normal path passes a liveness test
+            # (the callee's own early returns count: `_delete_` returning at once for an already deleted object would let delete() succeed silently)
+            def always_tests(fn_, depth=0, seen=()):
+                g_ = cg.cfg(fn_)
+                guards = [n for n in g_.nodes if n.kind == 'test' and '.is_alive' in norm(n.ast)]
+                guards += [n for n in g_.nodes if n.kind == 'stmt' and isinstance(n.ast, ast.Assert) and '.is_alive' in norm(n.ast.test)]
+                if depth < 3:
+                    for n in g_.nodes:
+                        if n.ast is None or n.kind not in ('stmt', 'test'): continue
+                        for c_ in n.calls():
+                            if isinstance(c_.func, ast.Attribute) and dotted(c_.func.value) == fn_.recv and fn_.cls is not None:
+                                tgt = repo.lookup(fn_.cls, c_.func.attr)
+                                if tgt is not None and hasattr(tgt, 'node') and tgt.full not in seen and always_tests(tgt, depth + 1, seen + (fn_.full,)): guards.append(n)
+                return bool(guards) and g_.exit.id not in g_.reach([g_.entry], avoid=guards, edge_ok=lambda x, y, lab: lab != 'exc')
+            calls_same = [c_ for c_ in ast.walk(f.node) if isinstance(c_, ast.Call) and isinstance(c_.func, ast.Attribute) and dotted(c_.func.value) == f.recv]
+            if not calls_same: continue       # nothing of the object is touched here
+            n_del += 1
+            ok = always_tests(f)
+            ctx.ob('C32-LIVE.change-is-never-silently-accepted', f, f.node, ok,
+                   '' if ok else '%s has no liveness test of its own and the operation it delegates to can return normally without one (an early return before the test): for an '
+                   'object of a finished session the call succeeds silently' % f.qual, node=f.node)
+            continue
         n_ref += 1
         allowed = {norm(ast.parse(k, mode='eval').body, limit=1000): v for k, v in NOOP_RETURNS.get(f.qual, {}).items()}
         from ..typestate import resolve_flags
@@ -204,6 +226,7 @@ def run(ctx):
                'change is accepted in memory without any error' % (f.qual, g.fmt_path(p_) if p_ else '?'), node=f.node,
                expected='the liveness test before every return (no-op returns are listed in NOOP_RETURNS with their reason)')
     ctx.floor('C32-LIVE', n_ref, 10, 'changing operations with their own liveness test')
+    ctx.count('C32-LIVE: changing operations that delegate the liveness test', n_del)
     # ---- the flag the tests rely on: SessionCache.close marks the cache dead on every way out (before any early return)
     cl = repo.fn(CORE, 'SessionCache.close')
     g = cg.cfg(cl)
@@ -254,6 +277,7 @@ ATTR_API = {'__get__', '__set__', '__delete__', 'load', 'copy'}
 MUTATING = {'set', 'delete', 'add', 'remove', 'clear', 'create', '__iadd__', '__isub__', 'flush', 'load', 'update'}
 
 MUTANTS = [
+    dict(id='C32-del1', file='pony/orm/core.py', fn='Entity.delete', old="        cache = obj._session_cache_\n        if cache is None or not cache.is_alive: throw_db_session_is_over('delete object', obj)\n        obj._delete_()", new="        obj._delete_()", expect='C32-LIVE'),
     dict(id='C32-c9', file='pony/orm/core.py', fn='SessionCache.close', old="        try:\n            if rollback:\n                try: provider.rollback(connection, cache)\n                except:\n                    provider.drop(connection, cache)\n                    raise\n            provider.release(connection, cache)\n",
          new="        if rollback:\n            try: provider.rollback(connection, cache)\n            except:\n                provider.drop(connection, cache)\n                raise\n        try: provider.release(connection, cache)\n", expect='C32-CLOSE.objects-detached'),
     dict(id='C32-r1', file='pony/orm/core.py', fn='Entity._attr_changed_', old="        cache = obj._session_cache_\n        if cache is None or not cache.is_alive: throw_db_session_is_over('assign new value to', obj, attr)\n", new="        if obj._wbits_ is None or obj._wbits_ & obj._bits_[attr]: return\n        cache = obj._session_cache_\n        if cache is None or not cache.is_alive: throw_db_session_is_over('assign new value to', obj, attr)\n", expect='C32-LIVE.change-is-never'),
